@@ -838,6 +838,42 @@ fn gen_drop_after_rolled_back_drop(rng: &mut Rng, out: &mut Vec<Case>) {
     out.push(Case { line: format!("ddl | {}", ops.join(" ; ")), tags });
 }
 
+/// CREATE UNIQUE INDEX / ADD CONSTRAINT UNIQUE over rows that collide: refused, and the table must stay usable (rows
+/// inserted and read afterwards, duplicates still accepted); then the duplicates are deleted, the same DDL succeeds
+/// and a duplicate is refused; in autocommit or inside a session that goes on and commits, sometimes with a reopen.
+/// Clean region.
+fn gen_index_over_duplicates(rng: &mut Rng, out: &mut Vec<Case>) {
+    let t = "t";
+    let mut ops: Vec<String> = Vec::new();
+    ops.push(format!("db ct {}(k:big,v:int)", t));
+    ops.push(format!("db ins {} 1 10 ; db ins {} 2 20 ; db ins {} 1 30", t, t, t));
+    if rng.chance(1, 2) {
+        ops.push(format!("db ins {} null 40 ; db ins {} null 50", t, t));
+    }
+    let how = if rng.chance(1, 2) { "ci" } else { "ak" };
+    match rng.below(3) {
+        0 => ops.push(format!("db {} {} k", how, t)),
+        1 => ops.push(format!("s1 begin ; s1 {} {} k ; s1 ins {} 3 60 ; s1 commit", how, t, t)),
+        _ => ops.push(format!("s1 begin ; s1 ins {} 3 60 ; s1 {} {} k ; s1 rollback", t, how, t)),
+    }
+    ops.push(format!("db sel {}", t));
+    // the table is as it was: no constraint
+    ops.push(format!("db ins {} 4 70 ; db ins {} 2 80 ; db sel {}", t, t, t));
+    if rng.chance(1, 3) {
+        ops.push(format!("reopen ; db ins {} 5 90 ; db sel {}", t, t));
+    }
+    // remove the duplicates (rows are addressed through v), try again
+    ops.push(format!("db del {} where v eq 30 ; db del {} where v eq 80", t, t));
+    let how2 = if rng.chance(1, 2) { "ci" } else { "ak" };
+    ops.push(format!("db {} {} k ; db sel {}", how2, t, t));
+    ops.push(format!("db ins {} 1 11 ; db ins {} 6 12 ; db ins {} null 13 ; db sel {}", t, t, t, t));
+    if rng.chance(1, 2) {
+        ops.push(format!("reopen ; db ins {} 2 14 ; db ins {} 7 15 ; db sel {}", t, t, t));
+    }
+    let tags: Vec<String> = vec!["c15".into(), "index_over_duplicates".into(), "nt".into(), "clean".into()];
+    out.push(Case { line: format!("ddl | {}", ops.join(" ; ")), tags });
+}
+
 impl Engine for DdlEngine {
     fn gen_cases(&self, rng: &mut Rng, tier: Tier) -> Vec<Case> {
         let mut out = Vec::new();
@@ -846,6 +882,9 @@ impl Engine for DdlEngine {
         }
         for _ in 0..(if tier == Tier::Quick { 60 } else { 600 }) {
             gen_drop_after_rolled_back_drop(rng, &mut out);
+        }
+        for _ in 0..(if tier == Tier::Quick { 40 } else { 400 }) {
+            gen_index_over_duplicates(rng, &mut out);
         }
         let want = if tier == Tier::Quick { 600 } else { 6000 };
         let want = want + out.len();
